@@ -74,6 +74,8 @@ def gen_workspace(r, widx):
             comps[0]["deps"].append("libcnb:" + bps[0]["id"])
     # a composite whose directory also holds a Cargo.toml (it is still a composite: it has an order)
     for j, c in enumerate(comps):
+        lib = [d for d in c["deps"] if d.startswith("libcnb:")]
+        c["ungrouped"] = lib[-1] if len(lib) >= 2 and (r.random() < 0.5 if not force else widx % 2 == 1) else None
         c["cargo_toml"] = (r.random() < 0.3 if "cargo_toml" not in force else force["cargo_toml"] == j) and not any(b["dir"].startswith(c["dir"] + "/") for b in bps)
     # where cargo puts its artifacts: the default, CARGO_TARGET_DIR pointing outside the workspace, or [build] target-dir in .cargo/config.toml
     return {"idx": widx, "bps": bps, "comps": comps, "foreign": r.random() < 0.6, "target_mode": r.choice(["default", "default", "unset", "env-elsewhere", "config"])}
@@ -100,7 +102,7 @@ def write_workspace(root, ws):
     with open(os.path.join(root, "Cargo.toml"), "w") as f:
         f.write("[workspace]\nresolver = \"2\"\nmembers = [%s]\n" % ", ".join('"%s"' % b["dir"] for b in ws["bps"]))
     with open(os.path.join(root, ".ignore"), "w") as f:
-        f.write("target/\npackaged/\nout-custom/\nbuild-out/\n")
+        f.write("target/\npackaged/\nout-custom/\nbuild-out/\n%s/\n" % TRIPLE)
     mode = ws.get("target_mode", "default")
     TARGET_OF[root] = (mode, {"env-elsewhere": root + "-artifacts", "config": os.path.join(root, "build-out")}.get(mode, os.path.join(root, "target")))
     if mode == "config":
@@ -124,7 +126,8 @@ def write_workspace(root, ws):
     for c in ws["comps"]:
         d = os.path.join(root, c["dir"])
         os.makedirs(d, exist_ok=True)
-        groups = "".join('[[order.group]]\nid = "%s"\nversion = "0.1.0"\n' % dep[len("libcnb:"):] for dep in c["deps"] if dep.startswith("libcnb:"))
+        # (a dependency of package.toml need not be named by the composite's own order: c["ungrouped"] is one that is not)
+        groups = "".join('[[order.group]]\nid = "%s"\nversion = "0.1.0"\n' % dep[len("libcnb:"):] for dep in c["deps"] if dep.startswith("libcnb:") and dep != c.get("ungrouped"))
         if not groups:
             # (an order needs at least one group: a composite of buildpacks that are not built here names one of those)
             groups = '[[order.group]]\nid = "external/procfile"\nversion = "2.0.1"\n'
@@ -356,6 +359,8 @@ def judge_run(ws, root, cwd_rel, profile, pdir, rc, out, err, sh, case, what, al
         return False
     want = expected_tree(ws, root, set(selected) | set(also_present), profile, pdir)
     snap = vp.snapshot(pdir)
+    if os.path.realpath(pdir) == os.path.realpath(root):
+        snap = {k: v for k, v in snap.items() if k == TRIPLE.encode() or k.startswith(TRIPLE.encode() + b"/")}
     diffs = compare_tree(snap, want)
     if diffs:
         kind = "unexpected" if any(d.startswith("unexpected") for d in diffs) else "missing" if any("missing" in d for d in diffs) else "content"
@@ -397,18 +402,24 @@ def scenario(arg):
         if tier == "thorough":
             for x in ws["bps"] + ws["comps"]:
                 invocations.append((x["dir"], r.choice(["dev", "release"]), r.choice([None, "out-custom", os.path.join(root, "abs-out")])))
+        invocations.append((".", "dev", "."))      # the package directory is the workspace root itself (its output directory is listed in the ignore file)
         invocations = [iv for iv in invocations if iv[0] not in own_manifest]
-        for cwd_rel, profile, pd in invocations:
+        for n_inv, (cwd_rel, profile, pd) in enumerate(invocations):
             pdir = os.path.join(root, "packaged") if pd is None else (pd if os.path.isabs(pd) else os.path.normpath(os.path.join(root, cwd_rel, pd)))
-            vp.rmtree(pdir)
-            rc, out, err = run_package(cargo_libcnb, root, os.path.join(root, cwd_rel), profile, pd)
+            if pdir != root:
+                vp.rmtree(pdir)
+            # (every second run with the variables a CI system sets: what is printed and written does not depend on them)
+            rc, out, err = run_package(cargo_libcnb, root, os.path.join(root, cwd_rel), profile, pd, extra_env={"CI": "true", "GITHUB_ACTIONS": "true"} if n_inv % 2 else None)
             sh.evaluations += 1
             what = "packaging from %s (%s%s)" % (cwd_rel, profile, ", --package-dir " + pd if pd else "")
             c = dict(case, run={"cwd": cwd_rel, "profile": profile, "package_dir": pd, "history": "clean"})
             if not judge_run(ws, root, cwd_rel, profile, pdir, rc, out, err, sh, c, what):
                 return sh.dict()
             sh.nontrivial.add((shape, "clean", "root" if cwd_rel == "." else "bpdir" if cwd_rel != "docs" else "nondir", profile, pd is not None))
-            vp.rmtree(pdir) if pd else None
+            if pdir == root:
+                vp.rmtree(os.path.join(root, TRIPLE))
+            elif pd:
+                vp.rmtree(pdir)
         # reference: clean tree from the root, dev
         pdir = os.path.join(root, "packaged")
         vp.rmtree(pdir)
@@ -437,6 +448,18 @@ def scenario(arg):
                 sh.violation("stale:%s" % kind, "%s: the result differs from packaging into an empty directory: %s" % (what, vp.snap_diff(clean, after, 4)), c)
                 return sh.dict()
             sh.nontrivial.add((shape, "preseed", kind, victim["kind"]))
+        # (b1) stale content in the output of a DEPENDENCY, then packaging from the directory of the composite that depends on it: the
+        # dependency is packaged again (everything the selected buildpack needs is), the stale content is gone
+        for c_ in [x for x in ws["comps"] if x["dir"] not in own_manifest and any(d.startswith("libcnb:") for d in x["deps"])][:1]:
+            dep_id = [d for d in c_["deps"] if d.startswith("libcnb:")][0][len("libcnb:"):]
+            preseed("extra-files", os.path.join(pdir, TRIPLE, "debug", dep_id.replace("/", "_")))
+            rc, out, err = run_package(cargo_libcnb, root, os.path.join(root, c_["dir"]), "dev")
+            sh.evaluations += 1
+            c = dict(case, run={"cwd": c_["dir"], "profile": "dev", "history": "preseed-dependency:extra-files", "victim": dep_id})
+            what = "packaging from %s over stale files in the output of its dependency %s" % (c_["dir"], dep_id)
+            if not judge_run(ws, root, c_["dir"], "dev", pdir, rc, out, err, sh, c, what, also_present=all_ids):
+                return sh.dict()
+            sh.nontrivial.add((shape, "preseed-dependency", c_["kind"]))
         # (b2) the same with a custom --package-dir, where the output directory holds ONLY stale content (no earlier package at all)
         cdir = os.path.join(root, "out-custom")
         vp.rmtree(cdir)
